@@ -729,7 +729,24 @@ def _directed():
         g.query(g.join(g.reference(g.query(g.reference(b, 'v1'), select=(g.column('v1', 'x'), g.column('v1', 'w'))), 'vq'),
                        g.reference(a, 'v2'), 'inner', g.cmp('==', g.column('vq', 'x'), g.column('v2', 'x'))),
                 select=(g.column('vq', 'w'), g.column('v2', 'y'))),
-    ] + referenced_joins() + nested_sets()
+    ] + referenced_joins() + nested_sets() + function_named_aliases()
+
+
+def function_named_aliases():
+    """Aggregates / expressions aliased by names that are also SQL function names, flat and read through a reference."""
+    from vlib import dslgen as g
+
+    a = g.table('A')
+    out = []
+    for position, fn in enumerate(('max', 'min', 'sum', 'count')):
+        for name in (fn, 'count' if fn != 'count' else 'max'):
+            inner = g.query(a, select=(g.column('A', 'y'), g.alias(g.agg(fn, g.column('A', 'x')), name)), groupby=(g.column('A', 'y'),))
+            out.append(inner)
+            ref = f'fa{position}{name}'
+            out.append(g.query(g.reference(inner, ref), select=(g.column(ref, name), g.column(ref, 'y')),
+                               where=g.notnull(g.column(ref, name))))
+    out.append(g.query(a, select=(g.alias(g.arith('+', g.column('A', 'x'), g.column('A', 'y')), 'abs'), g.alias(g.column('A', 's'), 'lower'))))
+    return out
 
 
 def nested_sets():
